@@ -24,7 +24,7 @@ func (e *Engine) Name() string         { return "iohist" }
 func (e *Engine) Properties() []string { return []string{"C19"} }
 func (e *Engine) Level() string        { return "exploration" }
 func (e *Engine) Rule() string {
-	return "one run = one history of <=60 operations over <=3 simultaneously open handles on <=2 files in a private directory: io.open in all twelve modes, write (strings/numbers, lengths around the 4096-byte buffers), read by count / line / all, lines() consumed for j steps, seek set/cur/end incl. past EOF and before 0, flush, setvbuf no/full with sizes 1/16/4096/4097, close, io.type, every operation again on a closed handle, io.lines(path), and durability probes through a freshly opened second handle; initial sizes 0..12000 around the buffer boundaries, lines up to 9000 bytes. The generator inserts the seek or flush the statement requires between a read and a following write (and between a write and a read). After every operation the returned values must equal the byte-sequence model's, at close and at the end the bytes on disk must equal the model's. distinct_nontrivial = distinct histories (hash of the operation sequence) with at least one write and one read"
+	return "one run = one history of <=60 operations (one run in ten: 200-600) over <=3 simultaneously open handles on <=2 files in a private directory: io.open in all twelve modes, write (strings/numbers, lengths around the 4096-byte buffers), read by count / line / all, lines() consumed for j steps, seek set/cur/end incl. past EOF and before 0, flush, setvbuf no/full with sizes 1/16/4096/4097, close, io.type, every operation again on a closed handle, io.lines(path), and durability probes through a freshly opened second handle; initial sizes 0..12000 around the buffer boundaries, lines up to 9000 bytes. The generator inserts the seek or flush the statement requires between a read and a following write (and between a write and a read). After every operation the returned values must equal the byte-sequence model's, at close and at the end the bytes on disk must equal the model's. distinct_nontrivial = distinct histories (hash of the operation sequence) with at least one write and one read"
 }
 func (e *Engine) RealComponents() []string {
 	return []string{"iolib.go (lFile, fileReadAux/fileWriteAux/fileSeek/fileFlush/fileSetVBuf/fileClose/lines)", "bufio.Reader/bufio.Writer over *os.File", "the kernel's file system on a private directory", "VM"}
@@ -394,6 +394,11 @@ func (e *Engine) Run(t *core.Tape, cfg *core.Config, st *core.Stats) (viol *core
 	}
 
 	nops := 8 + t.Choose(53)
+	if t.Choose(10) == 0 {
+		// a long history: many operations (and open/close cycles) on the same handles and files
+		nops = 200 + t.Choose(400)
+		st.Probe("long_history")
+	}
 	for opi := 0; opi < nops; opi++ {
 		h := hs[t.Choose(len(hs))]
 		var v *core.Violation
